@@ -223,14 +223,12 @@ def name_based_free_var_names(fn):
     from CPython's resolution (known finding activity-free-vars-name-based):
       * declared global in a nested block (CPython: the module's variable whatever the enclosing blocks bind;
         visit_Global also counts the declaration itself as a read)
-      * declared nonlocal in a nested block (visit_Nonlocal adds the name to `bound`, so it is not exported to the
-        blocks in between although CPython passes it through them as a free variable)
       * bound in a nested class body, or a parameter of a function written in a nested class body (CPython: class
         locals are invisible to the functions nested in the class; the analysis subtracts the class's bound set)"""
     out = set()
     for b in nested_blocks(fn):
         for n in ast.walk(b):
-            if isinstance(n, (ast.Global, ast.Nonlocal)):
+            if isinstance(n, ast.Global):
                 out.update(n.names)
         if isinstance(b, ast.ClassDef):
             for s in b.body:
@@ -287,12 +285,12 @@ def fv_cpython(t):
 
     def rec(b, chain):
         for s in b.get_symbols():
-            if not s.is_referenced():
-                continue
             n = s.get_name()
             if s.is_global():
-                out.add(n)
+                if s.is_referenced():
+                    out.add(n)
             elif s.is_free():
+                # free by use or by a nonlocal declaration (write-only included): co_freevars
                 res = False
                 for p in reversed(chain[:-1]):
                     if p.get_type() == 'function':
@@ -329,7 +327,7 @@ def oracle_static(src, node, quirks):
     known = set()
     # the known finding activity-nested-params-leak can only explain a difference while the implementation
     # shows the behaviour (measured by tools/translate/c08_quirks.py); after the fix it explains nothing
-    leak_active = bool(quirks) and any(quirks.values())
+    leak_active = bool(quirks) and any(quirks.get(k) for k in ('q_leak', 'q_annfn', 'q_annmiss'))
     # a walrus inside a comprehension hides the name for everything nested in that comprehension (lambdas)
     w_all = set()
     for c in ast.walk(node):
@@ -391,7 +389,7 @@ def oracle_static(src, node, quirks):
         if extra and leak_active and extra <= nested_param_names(fn):
             known.add(KF_LEAK)
             extra = set()
-        if missing and missing <= walrus_in_comp_names(fn):
+        if missing and missing <= walrus_in_comp_names(fn) | w_all:
             known.add(KF_WALRUS)
             missing = set()
         if extra and extra <= cut_names:
@@ -531,7 +529,7 @@ def oracle_dynamic(src, node, dvs, quirks=None):
     observed = {}
     judged = 0
     known = set()
-    leak_active = bool(quirks) and any(quirks.values())
+    leak_active = bool(quirks) and any(quirks.get(k) for k in ('q_leak', 'q_annfn', 'q_annmiss'))
     def_annots = {}     # (function name, line of a def statement) -> names read by its parameter annotations
     for fn in [n for n in ast.walk(node) if isinstance(n, ast.FunctionDef)]:
         for s in ast.walk(fn):
